@@ -301,6 +301,12 @@ def classify(src, oracle, i, a, b):
     if a is not None and [n for n, _ in a["instrs"]] == ["EndExpression"] and a["meta"] == [None]:
         if b is None or (len(b["instrs"]) == 0 and b["last"].startswith("6")):
             return "C20-K1"
+    if a is not None and b is not None:
+        # C05-K1: the alone build already has a jump entry one past its end, and nothing else is wrong
+        alone_bad = [k for k, t in enumerate(a["jumps"]) if k > 0 and t == len(a["instrs"])]
+        shared_bad = [k for k, t in enumerate(b["jumps"]) if t is None or not (b["il"] <= t < b["il"] + len(b["instrs"]))]
+        if alone_bad and shared_bad == alone_bad and relocate(a, b["il"], b["jl"]) == {k: b[k] for k in ("entry", "instrs", "jumps", "meta")}:
+            return "C20-K3"
     return None
 
 
